@@ -30,3 +30,12 @@ func init() {
 		Old: "\tvar resp io.Writer = w\n", New: "\tvar resp io.Writer = w\n\tif m.opts.statsHandler != nil {\n\t\tresp = struct{ io.Writer }{w}\n\t}\n",
 		Expect: "value-choice", Why: "response writer replaced only when stats are on"})
 }
+
+func init() {
+	control(&Control{ID: "delruletotal-first-hit-only", Rule: "DELRULE-TOTAL", File: "larking/rules.go",
+		Old: "\t\tif m.name == name {\n\t\t\tdelete(p.methods, k)\n\t\t\tdeleted = true\n\t\t}\n", New: "\t\tif m.name == name {\n\t\t\tdelete(p.methods, k)\n\t\t\treturn true\n\t\t}\n",
+		Expect: "loop-runs-to-its-end", Why: "only the first verb entry of the method is removed"})
+	control(&Control{ID: "delruletotal-alive-ignores-methodall", Rule: "DELRULE-TOTAL", File: "larking/rules.go",
+		Old: "\treturn len(p.methods) != 0 ||\n\t\tp.methodAll != nil ||\n", New: "\treturn len(p.methods) != 0 ||\n",
+		Expect: "reads:path.methodAll", Why: "a node holding only a kind-* route counts as dead"})
+}
